@@ -28,6 +28,7 @@ const (
 	errFailedToGetIdentity       = "failed to get identity"
 	errReplicatorCollections     = "failed to get collections for replicator"
 	errFailedToCreateTransaction = "failed to create transaction"
+	errPushLogCIDMismatch        = "the CID of a push log request does not match its block"
 )
 
 var (
@@ -75,6 +76,14 @@ func NewErrFailedToGetIdentity(inner error, kv ...errors.KV) error {
 
 func NewErrReplicatorCollections(inner error, kv ...errors.KV) error {
 	return errors.Wrap(errReplicatorCollections, inner, kv...)
+}
+
+func NewErrPushLogCIDMismatch(requested, actual fmt.Stringer) error {
+	return errors.New(
+		errPushLogCIDMismatch,
+		errors.NewKV("Requested", requested.String()),
+		errors.NewKV("Block", actual.String()),
+	)
 }
 
 func NewErrFailedToCreateTransaction(inner error, kv ...errors.KV) error {
